@@ -565,6 +565,12 @@ func checkFormatFlagsAlways(c *Ctx, p *Prog, rule string) {
 						}
 					}
 				}
+				if v, isV := in.(ssa.Value); isV {
+					if set, _, isIdx := constSetIndex(v); isIdx {
+						hash = hash || strings.IndexByte(set, '#') >= 0
+						space = space || strings.IndexByte(set, ' ') >= 0
+					}
+				}
 			}
 		}
 		if !hash || !space || len(body) > 12 {
